@@ -26,7 +26,7 @@ def run(chk):
     for thm in ('scalar_cmov_correct', 'fe_cmov_correct', 'fe_storage_cmov_correct', 'scalar_is_zero_correct'):
         chk.obligation('kernel theorem %s over the regenerated primitive' % thm, rc == 0 and os.path.exists(os.path.join(vlib.COQ, 'Kernel/CtPrimitives.vo')), log[-3000:])
     chk.coq()
-    # (1b) source-level lint of the constant-time layer: 66 functions that run on secret data must not gain a branch, an early return or a
+    # (1b) source-level lint of the constant-time layer: 85 functions that run on secret data must not gain a branch, an early return or a
     # variable-time (_var) callee with respect to the committed baseline (corpus/ct_baseline.json, taken from the pinned tree)
     import ct_lint, json
     cur = ct_lint.measure(vlib.REPO); base = json.load(open(ct_lint.BASELINE))
